@@ -664,13 +664,31 @@ impl Prioritize {
         }
     }
 
-    pub fn clear_queue<B>(&mut self, buffer: &mut Buffer<Frame<B>>, stream: &mut store::Ptr) {
+    pub fn clear_queue<B>(
+        &mut self,
+        buffer: &mut Buffer<Frame<B>>,
+        stream: &mut store::Ptr,
+        counts: &mut Counts,
+    ) {
         let span = tracing::trace_span!("clear_queue", ?stream.id);
         let _e = span.enter();
 
         // TODO: make this more efficient?
         while let Some(frame) = stream.pending_send.pop_front(buffer) {
             tracing::trace!(?frame, "dropping");
+
+            if let Frame::PushPromise(ref push) = frame {
+                // The promise will never be sent, so the promised stream can
+                // never be opened either. Release everything it holds.
+                if let Some(pushed) = stream.store_mut().find_mut(&push.promised_id()) {
+                    counts.transition(pushed, |counts, pushed| {
+                        pushed.is_pending_push = false;
+                        pushed.set_reset(Reason::CANCEL, Initiator::Library);
+                        self.clear_queue(buffer, pushed, counts);
+                        self.reclaim_all_capacity(pushed, counts);
+                    });
+                }
+            }
         }
 
         stream.buffered_send_data = 0;
@@ -740,7 +758,7 @@ impl Prioritize {
                                 // response, which requires sending all queued DATA.
                                 if reason != Reason::NO_ERROR {
                                     stream.pending_send.push_front(buffer, frame.into());
-                                    self.clear_queue(buffer, &mut stream);
+                                    self.clear_queue(buffer, &mut stream, counts);
                                     self.reclaim_all_capacity(&mut stream, counts);
                                     self.pending_send.push(&mut stream);
                                     continue;
